@@ -240,3 +240,137 @@ func checkReversalSeesEarlierParts(r *Run, op *packages.Package, cg *CallGraph) 
 		r.Undecide("C02-R5: no loop over a MATCH's pattern parts that can reverse a part was found in package optimize")
 	}
 }
+
+// checkWithCarryReadsAlias (C02-R5, WITH clause): symbols stay bound across WITH under their alias (WITH s AS src binds
+// src).  The function that carries the reversal rule's set of bound symbols over a WITH projection must look at
+// ProjectionItem.Alias; one that only recognises bare variables forgets every renamed binding, and a traversal that
+// starts at such a binding is reversed although its source is bound.
+func checkWithCarryReadsAlias(r *Run, op *packages.Package, cg *CallGraph) {
+	const rule = "C02-R5-reversal-bindings"
+	info := op.TypesInfo
+	cp := r.MustPkg("cypher/models/cypher")
+	var aliasField *types.Var
+	if tn, ok := cp.Types.Scope().Lookup("ProjectionItem").(*types.TypeName); ok {
+		if st, ok := tn.Type().Underlying().(*types.Struct); ok {
+			for i := 0; i < st.NumFields(); i++ {
+				if st.Field(i).Name() == "Alias" {
+					aliasField = st.Field(i)
+				}
+			}
+		}
+	}
+	if aliasField == nil {
+		r.Undecide("C02-R5: cypher.ProjectionItem.Alias not found")
+		return
+	}
+	n := 0
+	for fn, fd := range cg.Decl {
+		if cg.PkgOf[fn] != op || fd.Body == nil || !strings.HasPrefix(fn.Name(), "reverseInboundTraversal") {
+			continue
+		}
+		ast.Inspect(fd.Body, func(x ast.Node) bool {
+			call, ok := x.(*ast.CallExpr)
+			if !ok {
+				return true
+			}
+			takesWithProjection := false
+			for _, a := range call.Args {
+				if sel, ok := ast.Unparen(a).(*ast.SelectorExpr); ok && sel.Sel.Name == "Projection" {
+					if inner, ok := ast.Unparen(sel.X).(*ast.SelectorExpr); ok && inner.Sel.Name == "With" {
+						takesWithProjection = true
+					}
+				}
+			}
+			callee := calleeOf(info, call)
+			if !takesWithProjection || callee == nil || cg.Decl[callee] == nil {
+				return true
+			}
+			n++
+			// does the carry function add to its result set a value that can be ProjectionItem.Alias.Symbol?
+			var mayBeAlias func(g *types.Func, e ast.Expr, depth int) bool
+			mayBeAlias = func(g *types.Func, e ast.Expr, depth int) bool {
+				gd := cg.Decl[g]
+				if gd == nil || gd.Body == nil || depth > 5 {
+					return false
+				}
+				ginfo := cg.PkgOf[g].TypesInfo
+				switch x := ast.Unparen(e).(type) {
+				case *ast.SelectorExpr:
+					if x.Sel.Name == "Symbol" {
+						if inner, ok := ast.Unparen(x.X).(*ast.SelectorExpr); ok {
+							if sl := ginfo.Selections[inner]; sl != nil && sl.Obj() == aliasField {
+								return true
+							}
+						}
+					}
+				case *ast.Ident:
+					obj := ginfo.Uses[x]
+					if obj == nil {
+						return false
+					}
+					found := false
+					ast.Inspect(gd.Body, func(m ast.Node) bool {
+						as, ok := m.(*ast.AssignStmt)
+						if !ok || found {
+							return true
+						}
+						for k, l := range as.Lhs {
+							id, ok := l.(*ast.Ident)
+							if !ok || (ginfo.Defs[id] != obj && ginfo.Uses[id] != obj) {
+								continue
+							}
+							if len(as.Lhs) == len(as.Rhs) {
+								if mayBeAlias(g, as.Rhs[k], depth+1) {
+									found = true
+								}
+							} else if len(as.Rhs) == 1 {
+								if c, ok := ast.Unparen(as.Rhs[0]).(*ast.CallExpr); ok {
+									if h := calleeOf(ginfo, c); h != nil && cg.Decl[h] != nil && cg.Decl[h].Body != nil {
+										ast.Inspect(cg.Decl[h].Body, func(q ast.Node) bool {
+											if ret, ok := q.(*ast.ReturnStmt); ok && k < len(ret.Results) && mayBeAlias(h, ret.Results[k], depth+1) {
+												found = true
+											}
+											return true
+										})
+									}
+								}
+							}
+						}
+						return true
+					})
+					return found
+				}
+				return false
+			}
+			reads := false
+			if cd := cg.Decl[callee]; cd != nil && cd.Body != nil {
+				cinfo := cg.PkgOf[callee].TypesInfo
+				ast.Inspect(cd.Body, func(m ast.Node) bool {
+					switch y := m.(type) {
+					case *ast.CallExpr:
+						if h := calleeOf(cinfo, y); h != nil && strings.HasPrefix(h.Name(), "add") && len(y.Args) == 2 && mayBeAlias(callee, y.Args[1], 0) {
+							reads = true
+						}
+					case *ast.AssignStmt:
+						for _, l := range y.Lhs {
+							if ix, ok := ast.Unparen(l).(*ast.IndexExpr); ok && mayBeAlias(callee, ix.Index, 0) {
+								reads = true
+							}
+						}
+					}
+					return true
+				})
+			}
+			construct := funcDeclName(fd) + ":" + callee.Name() + "(With.Projection)"
+			if reads {
+				r.Pass(rule, construct, call.Pos(), "%s adds ProjectionItem.Alias.Symbol to the carried set: renamed bindings stay bound", callee.Name())
+			} else {
+				r.Fail(rule, construct, call.Pos(), "%s carries the bound symbols over WITH without ever adding ProjectionItem.Alias.Symbol to the carried set: after WITH s AS src the symbol src is not bound for the reversal rule, the traversal that starts at src is reversed, and its far end is re-read as any node with the reached id", callee.Name())
+			}
+			return true
+		})
+	}
+	if n == 0 {
+		r.Undecide("C02-R5: no carry of the reversal rule's bound symbols over a WITH projection found")
+	}
+}
